@@ -2,6 +2,8 @@ import NriModel.Lemmas.DispatchResult
 import NriModel.Props.C07
 import NriModel.Props.C01
 import NriModel.Props.C02
+import NriModel.Props.C15
+import NriModel.Props.C17
 /-!
 # End to end: the request loop (C06/C07) composed with the response collector (C01–C05)
 
@@ -161,3 +163,39 @@ example : isMergeErr (request (collector (initCreate { id := str "c0" })) 10 4 d
 example : hasVeto 10 4 demo = false := by decide
 
 end Nri.Props.E2E
+
+/-! ## Subscription end to end: handler set (stub) → Configure answer → runtime's mask → relay
+
+`Nri.Stub` (C15) says what mask a stub-built plugin answers Configure with, `Nri.Registration`
+(C17) what the runtime stores for an answer, `Nri.Dispatch` (C06) which plugins the relay loop
+calls for an event. Composed: a plugin is called for exactly the events it implements (or the
+subset its Configure handler asked for). -/
+namespace Nri.Props.E2E.Subscription
+open Nri Nri.Events Nri.Props
+
+/-- A stub-built plugin of type `p` (no Configure handler, or one that asks for nothing) is
+    called by the runtime's relay loop for lifecycle event `e` iff it implements the handler
+    for `e`: the stub's answer is accepted unchanged by the runtime's mask validation, and the
+    loop's subscription test on the stored mask is the handler bit. -/
+theorem E2E_subscription_default {β : Type} (p : Stub.Plugin) (hd : Stub.Handlers)
+    (hnew : Stub.setupHandlers p = .ok hd) (b : Stub.Behaviour β) (c r v : Str)
+    (hask : p.configure = true → (b .configure (.config c r v)).err = none ∧ (b .configure (.config c r v)).events = 0#32)
+    (q : Dispatch.Plugin) (e : Nat) (h1 : 1 ≤ e) (h13 : e ≤ 13) :
+    ∃ m, (Stub.configure hd b c r v).2 = .ok m ∧ Registration.configureMask m = .ok m ∧
+      (q.events = m → (Dispatch.subscribed e q = true ↔ p.ev.getLsbD (e - 1) = true)) := by
+  have hcfg := C15.C15_configure p hd hnew b c r v
+  have hm : (Stub.configure hd b c r v).2 = .ok (Stub.subscribe p) := by
+    rw [hcfg]
+    by_cases hc : p.configure = true
+    · obtain ⟨he, hz⟩ := hask hc
+      simp [hc, he, hz]
+    · simp [hc]
+  refine ⟨Stub.subscribe p, hm, C15.C15_runtime_view p hd hnew b c r v _ hm, ?_⟩
+  intro hq
+  unfold Dispatch.subscribed
+  rw [hq, C15.C15_mask p e h1]
+  constructor
+  · exact fun h => h.2
+  · exact fun h => ⟨h13, h⟩
+
+end Nri.Props.E2E.Subscription
